@@ -481,6 +481,8 @@ static void run_zone(const Zone& z, hz::Result& r) {
     }
   } else if (g_prop == "C02") {
     for (i128 cs : C) check_c02_at(c, cs, r, true, "C02");
+    // and in descending order: every probe now follows a query of the *next* table segment
+    for (size_t q = C.size(); q-- > 0;) check_c02_at(c, C[q], r, true, "C02");
     if (g_thorough) {
       // every second of every gap and overlap: all file transitions, rule years ylast..ylast+2, +400, last representable
       std::vector<BP> sel;
@@ -522,6 +524,21 @@ static void run_zone(const Zone& z, hz::Result& r) {
         if (cv != cr.conv) r.violation("C06:convert-inconsistent", "convert() disagrees with lookup() in zone " + c.z->id, replay_args(c, "cs", cs));
       }
       have = true; prev = cr.conv; prev_cs = cs;
+    }
+    // the relation must hold whichever of the two calls is made first: descending pass
+    have = false;
+    for (size_t q = C.size(); q-- > 0;) {
+      CivRes cr = check_c02_at(c, C[q], r, true, "C06");
+      if (!cr.evaluated) continue;
+      if (have) {
+        r.count("pairs");
+        if (cr.conv > prev) {
+          char b[300];
+          snprintf(b, sizeof b, "zone %s (descending evaluation order): convert(%s)=%lld > convert(%s)=%lld", c.z->id.c_str(), ref::civil_str(ref::civil_from_secs(C[q])).c_str(), cr.conv, ref::civil_str(ref::civil_from_secs(prev_cs)).c_str(), prev);
+          r.violation("C06:order-desc", b, replay_args(c, "cs", C[q]));
+        }
+      }
+      have = true; prev = cr.conv; prev_cs = C[q];
     }
   } else if (g_prop == "C10") {
     typedef cctz::time_zone::civil_transition CT;
